@@ -32,6 +32,8 @@ def run(chk):
         ("feMulGeneric", lambda: K.k_mul(base, chk, "feMulGeneric")), ("feSquareGeneric", lambda: K.k_mul(base, chk, "feSquareGeneric")),
     ]
     run_kernels(chk, items)
+    from sym import validate
+    validate.field_kernels(base, chk, 400 if chk.tier == "thorough" else 24)
     # shape of the assembly: straight-line, memory only through the pointer arguments at constant offsets
     for name, fn in base.asm_funcs.items():
         probs = asm.static_checks(fn)
